@@ -6,6 +6,7 @@ from ..rules import builtins, exceptions, recursion
 def run(ctx, rep):
     builtins.rule_json_codec(ctx, rep, "C19-R1")
     exceptions.rule_catchable_classes(ctx, rep, "C19-R2", only_pred=lambda q: "_create_json_object" in q, floor=1)
-    recursion.rule_data_recursion_guarded(ctx, rep, "C19-R4", only={"context:Context._create_json_object.stringify_fn.to_json_value"}, floor=1)
+    recursion.rule_data_recursion_guarded(ctx, rep, "C19-R4", only=None, floor=1, only_pred=lambda q: "_create_json_object" in q)
+    recursion.rule_guard_state_is_per_call(ctx, rep, "C19-R4b", {"_create_json_object"})
     builtins.rule_json_omission(ctx, rep, "C19-R5")
     rep.undecided += ["parse(stringify(v)) structurally equal to v for all values, canonical form of stringify(parse(t)) (round-trip properties)"]
